@@ -5,6 +5,7 @@
 import VotelibDriver.Json
 import VotelibModel.Persist
 import VotelibModel.Blt
+import VotelibModel.StvFile
 open Lean
 namespace VL.Drv.C19
 open VL VL.Persist
@@ -203,6 +204,113 @@ def docJson (d : Doc Rat) : Json :=
     ("ballots", Json.arr (d.ballots.map (fun b => Json.arr #[toJson b.1, ratJson b.2])).toArray),
     ("title", match d.title with | some t => Json.str t | none => Json.null)]
 
+/-! #### STV section -/
+namespace Stv
+open VL.StvFile
+
+def hlineJson : HLine → Json
+  | .blank => Json.null
+  | .invalid => "invalid"
+  | .cand w nick name => Json.mkObj [("cand", Json.arr #[Json.bool w, Json.str nick, Json.str name])]
+  | .candBad => "candBad"
+  | .ballotsN n => Json.mkObj [("ballots", toJson n)]
+  | .ballotsBlt => "ballotsBlt"
+  | .ballotsBad => "ballotsBad"
+  | .order l => Json.mkObj [("order", toJson l)]
+  | .other k v => Json.mkObj [("other", Json.arr #[Json.str k, Json.str v])]
+
+def hlineOfJson (j : Json) : Except String HLine := do
+  match j with
+  | .null => pure .blank
+  | .str "invalid" => pure .invalid
+  | .str "candBad" => pure .candBad
+  | .str "ballotsBlt" => pure .ballotsBlt
+  | .str "ballotsBad" => pure .ballotsBad
+  | _ =>
+    match j.getObjVal? "cand" with
+    | .ok v => do
+        let a ← v.getArr?
+        match a.toList with
+        | [w, n, m] => do pure (.cand (← w.getBool?) (← n.getStr?) (← m.getStr?))
+        | _ => throw "bad cand"
+    | .error _ =>
+      match j.getObjVal? "ballots" with
+      | .ok v => do pure (.ballotsN (← fromJson? (α := Nat) v))
+      | .error _ =>
+        match j.getObjVal? "order" with
+        | .ok v => do pure (.order (← fromJson? (α := List String) v))
+        | .error _ => do
+          let a ← (← j.getObjVal? "other").getArr?
+          match a.toList with
+          | [k, v] => do pure (.other (← k.getStr?) (← v.getStr?))
+          | _ => throw "bad other"
+
+def firstJson : First → Json
+  | .mult r => Json.mkObj [("mult", ratJson r)]
+  | .multBad => "multBad"
+  | .multZero => "multZero"
+  | .word s => Json.mkObj [("word", Json.str s)]
+
+def firstOfJson (j : Json) : Except String First := do
+  match j with
+  | .str "multBad" => pure .multBad
+  | .str "multZero" => pure .multZero
+  | _ =>
+    match j.getObjVal? "mult" with
+    | .ok v => do let s ← v.getStr?; pure (.mult (← ratOfStr s))
+    | .error _ => do pure (.word (← j.getObjValAs? String "word"))
+
+def vlineJson : VLine → Json
+  | .blank => Json.null
+  | .endLine => "end"
+  | .items f rest => Json.mkObj [("first", firstJson f), ("rest", toJson rest)]
+
+def vlineOfJson (j : Json) : Except String VLine := do
+  match j with
+  | .null => pure .blank
+  | .str "end" => pure .endLine
+  | _ => do
+    let f ← firstOfJson (← j.getObjVal? "first")
+    let r ← j.getObjValAs? (List String) "rest"
+    pure (.items f r)
+
+def docOfJson (j : Json) : Except String (Doc Weight) := do
+  let cs ← (← j.getObjVal? "cands").getArr?
+  let cands ← cs.toList.mapM (fun e => do
+    let pr ← e.getArr?
+    match pr.toList with
+    | [n, w, i] => do pure ((← n.getStr?), (← w.getBool?), (← i.getStr?))
+    | _ => throw "bad candidate")
+  let bs ← (← j.getObjVal? "ballots").getArr?
+  let ballots ← bs.toList.mapM (fun e => do
+    let pr ← e.getArr?
+    match pr.toList with
+    | [idx, w] => do
+        let ix ← fromJson? (α := List Nat) idx
+        let v ← w.getObjValAs? String "v"
+        let sp ← w.getObjValAs? Bool "spellable"
+        pure (ix, ({ val := (← ratOfStr v), spellable := sp } : Weight))
+    | _ => throw "bad ballot")
+  pure { cands := cands, ballots := ballots }
+
+def loadedJson (r : Doc Rat × List (String × Bool)) : Json :=
+  Json.mkObj [("cands", Json.arr (r.2.map (fun c => Json.arr #[Json.str c.1, Json.bool c.2])).toArray),
+    ("ballots", Json.arr (r.1.ballots.map (fun b => Json.arr #[toJson b.1, ratJson b.2])).toArray)]
+
+def handleStv (op : String) (j : Json) : Option (Except String Json) :=
+  match op with
+  | "stv_dump" => some do
+    let d ← docOfJson (← j.getObjVal? "doc")
+    let (h, v) := dumpStv d
+    pure (Json.mkObj [("hdr", Json.arr (h.map hlineJson).toArray), ("votes", Json.arr (v.map vlineJson).toArray),
+      ("loaded", resJson loadedJson (loadStv h v)), ("wf", Json.bool (wfStv d))])
+  | "stv_load" => some do
+    let h ← (← (← j.getObjVal? "hdr").getArr?).toList.mapM hlineOfJson
+    let v ← (← (← j.getObjVal? "votes").getArr?).toList.mapM vlineOfJson
+    pure (Json.mkObj [("loaded", resJson loadedJson (loadStv h v))])
+  | _ => none
+end Stv
+
 def handle (op : String) (j : Json) : Option (Except String Json) :=
   match op with
   | "codec" => some do
@@ -232,6 +340,6 @@ def handle (op : String) (j : Json) : Option (Except String Json) :=
     let ls ← (← j.getObjVal? "lines").getArr?
     let lines ← ls.toList.mapM lineOfJson
     pure (Json.mkObj [("loaded", resJson docJson (Blt.loadBlt lines))])
-  | _ => none
+  | _ => Stv.handleStv op j
 
 end VL.Drv.C19
